@@ -151,8 +151,18 @@ def run(ctx, idx):
     ctx.rule("C15.f", "Serialised text is final: in Program.to_string text that already holds a serialised value is only inserted (format argument, +, join); it is never the format template and never rewritten by content (split / replace / strip / slicing / indentation helpers), so braces, line breaks and blanks inside a quoted value survive (taint analysis over to_string and its nested helpers).")
     from . import texttaint
 
-    tf, ncalls = texttaint.analyse(getattr(ts, "node_orig", None) or ts.node, K.src)
-    ctx.floor("C15.f", "calls of serialiser helpers followed", ncalls, 4)
+    # the serialiser's own helpers, on the source as written: functions nested in to_string (found by the analysis itself), the
+    # other functions of its module and of mpilot.utils, and Program's methods (a refactoring may have moved them there)
+    helpers_ = {}
+    for m_ in (ts.module, idx.module_of("mpilot.utils")):
+        for st_ in (m_.tree.body if m_ is not None else []):
+            if isinstance(st_, ast.FunctionDef):
+                helpers_.setdefault(st_.name, st_)
+    for st_ in prog.node.body:
+        if isinstance(st_, ast.FunctionDef) and st_.name != "to_string":
+            helpers_.setdefault(st_.name, st_)
+    tf, ncalls = texttaint.analyse(getattr(ts, "node_orig", None) or ts.node, K.src, helpers_)
+    ctx.floor("C15.f", "calls of serialiser helpers followed", ncalls, 2)
     con_f = "%s::serialised-text-is-final" % ts.key
     if tf:
         for line_, kind_, text_ in tf[:3]:
